@@ -96,6 +96,8 @@ End Reader.
 (* the three conversions in use *)
 Definition conv_enc (hard : bool) (c : N) : option N := let e := enc hard c in if e =? 0 then None else Some e.
 Definition conv_plain (c : N) : option N := Some (upper c).
+(* spec-level conversion: symbols kept as written, validity by the Alphabet *)
+Definition conv_raw (c : N) : option N := if valid c then Some c else None.
 
 Definition read_encoded (hard : bool) := read (conv_enc hard) true.
 Definition read_plain := read conv_plain true.
